@@ -5,7 +5,9 @@ from fractions import Fraction as Fr
 from rv.checks import common
 
 PROP = "C17"
-ALPHABETS = [["a", "b"], ["a", "é", "ü"], ["é", "è", "€"], ["a", "€", "₭", "👋"], ["ü", "ű", "👋", "👍"], ["a", "b", "é"]]
+ALPHABETS = [["a", "b"], ["a", "é", "ü"], ["é", "è", "€"], ["a", "€", "₭", "👋"], ["ü", "ű", "👋", "👍"], ["a", "b", "é"],
+             # same continuation byte under different lead bytes (e2 82 ac / e3 82 ab; e4 b8 ad / e0 b8 81; f0 9f 98 8a / e2 98 83)
+             ["€", "カ", "a"], ["中", "ก"], ["😊", "☃", "€"], ["é", "ũ", "ã"]]
 RULE = (
     "case = (generated automaton over an alphabet mixing 1-, 2-, 3- and 4-byte characters with shared byte prefixes, eps "
     "arcs, state names that are ints / tuples / strings coinciding with alphabet symbols as WFSA.from_string produces; "
@@ -31,7 +33,7 @@ def gates(tier):
     return {
         "min_decided": {APIS[0]: 5000 * k, APIS[1]: 5000 * k, APIS[2]: 1500 * k, APIS[3]: 1500 * k},
         "shapes": {c: 5 * k for c in ["names:symbol", "names:int", "names:tuple", "eps_arc", "bytes:2", "bytes:3", "bytes:4",
-                                      "truncated-encodings", "recursion:left", "recursion:right", "from_string-operand",
+                                      "truncated-encodings", "spliced-encodings", "recursion:left", "recursion:right", "from_string-operand",
                                       "multichar-terminal", "sr:Q", "sr:Float"]},
         "min_hashseeds": 2,
     }
@@ -101,7 +103,7 @@ def run_case(case, ctx):
 
     def same(have, w):
         if exact:
-            return lib.have_value(R, have) == w
+            return lib.same("Q", have, w, exact=True)
         return close2(lib.have_value(R, have), w, 1e-8, 1e-12)
 
     strings = list(GG.strings_upto(alpha, case["maxlen"]))
@@ -148,6 +150,18 @@ def run_case(case, ctx):
             if p not in byte_strings:
                 trunc.add(p)
     foreign = {b"\xc3", b"z", b"\xf0\x9f", bytes([alpha[0].encode()[0], 0x80])} - set(byte_strings)
+    # spliced encodings: head of one character + tail of another (not an encoding unless it happens to be a character)
+    encs = [a.encode("utf-8") for a in alpha]
+    for e1 in encs:
+        for e2 in encs:
+            if e1 != e2 and len(e1) == len(e2) and len(e1) >= 2:
+                for k in range(1, len(e1)):
+                    sp = e1[:k] + e2[k:]
+                    for ctxb in (b"", encs[0]):
+                        for cand in (ctxb + sp, sp + ctxb):
+                            if cand not in byte_strings:
+                                foreign.add(cand)
+    ctx.shape["spliced-encodings"] += len(foreign)
     ctx.shape["truncated-encodings"] += len(trunc)
     ok, A = ctx.call(APIS[1], case, lambda: lib.build_wfsa(m, R, base.WFSA))
     if ok:
@@ -221,7 +235,7 @@ def run_case(case, ctx):
                 c2 = dict(case, bs=bs)
                 ok, v = ctx.call(APIS[2], c2, BG, tuple(bs))
                 if ok:
-                    good = close2(lib.have_value(R, v), w, 1e-8, 1e-10) if not (exact and isinstance(w, Fr)) else lib.have_value(R, v) == w
+                    good = close2(lib.have_value(R, v), w, 1e-8, 1e-10) if not (exact and isinstance(w, Fr)) else lib.same("Q", v, w, exact=True)
                     ctx.check(APIS[2], good, "cfg.to_bytes/value", c2, {"bytes": list(bs), "have": v, "want": w})
             for bs in list(table)[:6]:
                 for k in range(1, len(bs)):
